@@ -4,7 +4,7 @@
    gp t c i p = the correction of product p for input i that data channel c receives at dump t
    (through p's channel map);  factor = what calc_correction_per_corrprod computes for one corrprod. *)
 From Coq Require Import ZArith QArith Qabs Qcanon List Bool String Permutation.
-From KV Require Import Base.Sx Gen.Generated Model.Applycal Proofs.ApplycalP Model.ApplycalSol Proofs.ApplycalSolP Proofs.ApplycalElemP Proofs.ApplycalHoldP.
+From KV Require Import Base.Sx Gen.Generated Model.Applycal Proofs.ApplycalP Model.ApplycalSol Proofs.ApplycalSolP Proofs.ApplycalElemP Proofs.ApplycalHoldP Model.ApplycalName Proofs.ApplycalNameP.
 Import ListNotations.
 
 (* The flag raised by apply_flags_correction (constant name regenerated from applycal.py, value from flags.py). *)
@@ -336,3 +336,44 @@ Theorem C13_hold_independent_of_loaded_dumps : forall (A : Type) (a b T t : Z),
   in_force (seen a b evs) t = in_force (seen 0 T evs) (a + t)%Z.
 Proof. exact @hold_independent_of_loaded_dumps. Qed.
 Print Assumptions C13_hold_independent_of_loaded_dumps.
+
+(* ================================================================== the dask name of the corrections array
+   dask identifies a task by (array name, block index); arrays with one name computed in one graph are one array.
+   corr_name tok final = the name calc_correction gives the corrections array of one call (format string, separator,
+   `sorted` and the per-call token regenerated from the source); tok = uuid4().hex of the call (32 characters). *)
+
+(* Equal names (tokens of one length) => the same call token and the same set of applied products: two views with
+   different applycal, or two data sets, never share a corrections name.  Names are free of the separator. *)
+Theorem C13_name_identifies_call_and_products : forall t1 t2 a b,
+  List.length t1 = List.length t2 -> a <> [] -> b <> [] -> sep_free a -> sep_free b ->
+  corr_name t1 a = corr_name t2 b -> t1 = t2 /\ Permutation a b.
+Proof. exact corr_name_inj. Qed.
+Print Assumptions C13_name_identifies_call_and_products.
+
+(* Over a history of calc_correction calls (one per data set opened with applycal; pairwise different tokens of one
+   length, some product applied): all corrections arrays have different names - whatever products, data sets,
+   preselections they belong to.  False for the unrepaired code (name = products only: finding C13-F5). *)
+Theorem C13_names_unique_per_call : forall calls n,
+  NoDup (map fst calls) -> Forall (fun c => List.length (fst c) = n /\ snd c <> []) calls ->
+  NoDup (names_of calls).
+Proof. exact names_unique. Qed.
+Print Assumptions C13_names_unique_per_call.
+
+(* what must NOT matter: the order in which the products were requested *)
+Theorem C13_name_order_irrelevant : forall t a b, Permutation a b -> corr_name t a = corr_name t b.
+Proof. exact corr_name_perm. Qed.
+Print Assumptions C13_name_order_irrelevant.
+
+(* no product selected <=> no corrections array (the data set serves the stored arrays) *)
+Theorem C13_no_products_no_corrections : forall t final, calc_name t final = None <-> final = [].
+Proof. exact calc_name_none. Qed.
+Print Assumptions C13_no_products_no_corrections.
+
+(* chunks of the corrections array: time and channel chunks of the data; ONE chunk spanning the baseline axis
+   whenever the data has more than one (regenerated limit), same extent *)
+Theorem C13_corrections_chunks : forall tch cch bch,
+  fst (fst (corr_chunks tch cch bch)) = tch /\ snd (fst (corr_chunks tch cch bch)) = cch /\
+  sum_nat (snd (corr_chunks tch cch bch)) = sum_nat bch /\
+  (List.length (snd (corr_chunks tch cch bch)) <= 1)%nat.
+Proof. exact corr_chunks_all. Qed.
+Print Assumptions C13_corrections_chunks.
